@@ -38,6 +38,15 @@ TABLE = {
                 ref="7 C20",
                 note="Trusted: TLC, CacheIndexOps (reference + mechanism), the index replay runner. Known finding F1 "
                      "(known_findings.json) is suppressed only for histories the deviation model predicts exactly."),
+    "C08": dict(text="TLC explores every interleaving (depth-bounded, 3 nested blocks, 2 iterators) of block entry/exit (5 block "
+                     "kinds, normal/exceptional exit) with iterator new/next/close/drop/drain and checks that the mechanism "
+                     "(context variable + saved previous values) keeps the mode equal to what the open blocks prescribe; every "
+                     "behaviour to the export depth and random walks are replayed on the library and TLC validates the mode, "
+                     "context-stack depth, @symbol construction, @predicate call and operator behaviour observed after every step.",
+                technique="TLA+ state machine (ModeOps/Mode) model checked by TLC + exported interleavings replayed + TLC trace validation",
+                ref="7 C08",
+                note="Trusted: TLC, ModeOps, the mode replay runner (enters/exits context managers by hand). Single thread and "
+                     "single contextvars context; threads/asyncio tasks are not modelled."),
 }
 
 REASON_PENDING = "check not built yet (work in progress; see DESIGN.md section 10)"
